@@ -7,7 +7,7 @@ import (
 	"strings"
 )
 
-func init() { allFacts = append(allFacts, factFileValue, factWatchLoop, factWatchSetup) }
+func init() { allFacts = append(allFacts, factFileValue, factWatchLoop, factWatchSetup, factWatchPoll) }
 
 const fileGo = "sources/file/file.go"
 
@@ -651,4 +651,35 @@ func factWatchSetup() {
 	emit("/-- F15w: watches added by Watch before the loop goroutine starts -/\ndef watchSetupAdds : List String := %s\n\n", strList(adds))
 	emit("/-- F15w: Watch adds the file, its directory and (when different) the resolved path's directory, then starts the loop -/\ndef watchSetupComplete : Bool := %v\n\n",
 		strings.Join(adds, ";") == strings.Join(want, ";") && startsLoop)
+}
+
+// factWatchPoll (F15p): the fallback poll of watchLoop is a REPEATING source of wake-ups: `time.NewTicker(ws.PollInterval)`
+// whose channel is the select's ticker arm.  (A one-shot timer has the same `.C` / `.Stop()` surface.)  The model's
+// convergence theorems quantify over any number of wake-ups; an event-less change (the directory removed and
+// recreated) is only ever seen through this arm.
+func factWatchPoll() {
+	f := parse("sources/file/file.go")
+	ctor, guarded := "", false
+	if fd := funcDecl(f, "watchLoop"); fd != nil {
+		ast.Inspect(fd, func(n ast.Node) bool {
+			is, ok := n.(*ast.IfStmt)
+			if !ok || !strings.Contains(src(is.Cond), "PollInterval") {
+				return true
+			}
+			guarded = src(is.Cond) == "ws.PollInterval > 0"
+			ast.Inspect(is.Body, func(m ast.Node) bool {
+				if ce, ok := m.(*ast.CallExpr); ok {
+					if s := src(ce.Fun); strings.HasPrefix(s, "time.New") && len(ce.Args) == 1 && src(ce.Args[0]) == "ws.PollInterval" {
+						ctor = s
+					}
+				}
+				return true
+			})
+			return false
+		})
+	}
+	if ctor == "" || !guarded {
+		miss("F15p", "file.go watchLoop: `if ws.PollInterval > 0 { ticker := time.NewTicker(ws.PollInterval); tickerChan = ticker.C; … }`")
+	}
+	emit("/-- F15p: the fallback poll is built by `time.NewTicker` (it fires every interval, not once) -/\ndef watchPollRepeats : Bool := %v\n\n", ctor == "time.NewTicker" && guarded)
 }
